@@ -46,7 +46,7 @@ def run(tier, seed):
     val = schema()
     ngen, nnb, ntri = (1200, 220, 60) if tier == 'quick' else (20000, 3000, 600)
     gpairs = [genjson.gen_pair(r, depth=r.choice([2, 3, 4])) for _ in range(ngen)]
-    npairs = [gennb.gen_pair(r, rich=(i % 2 == 0)) for i in range(nnb)]
+    npairs = gennb.crafted_mime_pairs() + [gennb.gen_pair(r, rich=(i % 2 == 0)) for i in range(nnb)]
     triples = [gennb.gen_triple(r, rich=(i % 3 != 0)) for i in range(ntri)]
     # bases that still carry a (possibly emptied) conflict record from an earlier merge, conflicting again on metadata
     for i in range(max(6, ntri // 10)):
